@@ -126,7 +126,12 @@ _local = _t.local()
 
 
 def me():
-    return getattr(_local, "lt", None)
+    lt = getattr(_local, "lt", None)
+    if lt is not None and lt.s is not S:
+        # a logical thread left over from an earlier run (its tear-down did not finish in time, e.g. on a loaded
+        # machine) must never take part in the current one: it ends here
+        raise Abort()
+    return lt
 
 
 def switch(op=None):
@@ -725,7 +730,7 @@ class Result(object):
     pass
 
 
-def run(chooser, main_fn, real_timeout=30.0):
+def run(chooser, main_fn, real_timeout=180.0):
     """Run main_fn as logical thread 'main' under chooser.  Returns a Result with
     .log .sched .deadlock .hang .now .exc .npoints .preempts"""
     global S
@@ -766,11 +771,13 @@ def run(chooser, main_fn, real_timeout=30.0):
     res.hang = not s.fin.wait(real_timeout)
     # tear down whatever is left, one logical thread at a time
     s.aborting = True
+    res.teardown_incomplete = []
     for t in list(s.threads.values()):
         if not t.done:
             s.abort_step.clear()
             t.sem.release()
-            s.abort_step.wait(2.0)
+            if not s.abort_step.wait(20.0):
+                res.teardown_incomplete.append(t.name)
     res.log = s.log
     res.sched = s.sched
     res.deadlock = s.deadlock
